@@ -157,10 +157,10 @@ V("c14-silent-local-mutation", "C14", "silent", UT, "    S = list(S)\n    subgra
 # ------------------------------------------------------------------------------- C05
 V("c05-cov-sign", "C05", "fire", ND, "covariance = cov_y - cov_yx @ np.linalg.inv(cov_x) @ cov_xy", "covariance = cov_y + cov_yx @ np.linalg.inv(cov_x) @ cov_xy", rule="FORMULA.conditional.covariance", what="Schur complement sign")
 V("c05-mean-noshift", "C05", "fire", ND, "mean = mean_y + cov_yx @ np.linalg.inv(cov_x) @ (x - mean_x)", "mean = mean_y + cov_yx @ np.linalg.inv(cov_x) @ x", rule="FORMULA.conditional.mean", what="x not centred")
-V("c05-mean-inv-cov-y", "C05", "fire", ND, "mean = mean_y + cov_yx @ np.linalg.inv(cov_x) @ (x - mean_x)", "mean = mean_y + cov_yx @ np.linalg.inv(cov_y) @ (x - mean_x)", rule="FORMULA.conditional.mean", what="wrong block inverted", accept_inconclusive=True)
-V("c05-block-transposed", "C05", "fire", ND, "cov_yx = utils.matrix_block(self.covariance, Y, X)", "cov_yx = utils.matrix_block(self.covariance, X, X)", rule="FORMULA", what="wrong block", accept_inconclusive=True)
+V("c05-mean-inv-cov-y", "C05", "fire", ND, "mean = mean_y + cov_yx @ np.linalg.inv(cov_x) @ (x - mean_x)", "mean = mean_y + cov_yx @ np.linalg.inv(cov_y) @ (x - mean_x)", rule="FORMULA.conditional.mean", what="wrong block inverted")
+V("c05-block-transposed", "C05", "fire", ND, "cov_yx = utils.matrix_block(self.covariance, Y, X)", "cov_yx = utils.matrix_block(self.covariance, X, X)", rule="FORMULA", what="wrong block")
 V("c05-sorted-Y", "C05", "fire", ND, "        Y = np.atleast_1d(Y)\n        X = np.atleast_1d(X)\n        x = np.atleast_1d(x)", "        Y = np.sort(np.atleast_1d(Y))\n        X = np.atleast_1d(X)\n        x = np.atleast_1d(x)", rule="FORMULA", what="requested order of Y lost")
-V("c05-unique-X", "C05", "fire", ND, "        Y = np.atleast_1d(Y)\n        X = np.atleast_1d(X)\n        x = np.atleast_1d(x)", "        Y = np.atleast_1d(Y)\n        X = np.unique(X)\n        x = np.atleast_1d(x)", rule=None, what="X reordered, x no longer paired")
+V("c05-unique-X", "C05", "fire", ND, "        Y = np.atleast_1d(Y)\n        X = np.atleast_1d(X)\n        x = np.atleast_1d(x)", "        Y = np.atleast_1d(Y)\n        X = np.unique(X)\n        x = np.atleast_1d(x)", rule="FORMULA", what="X reordered, x no longer paired")
 V("c05-marginal-sorted", "C05", "fire", ND, "        X = np.atleast_1d(X)\n        # Compute marginal mean/variance", "        X = np.array(sorted(np.atleast_1d(X)))\n        # Compute marginal mean/variance", rule="FORMULA.marginal", what="marginal sorts the indices")
 V("c05-matrix-block-swapped", "C05", "fire", UT, "    return M[rows, :][:, cols]", "    return M[cols, :][:, rows]", rule="FORMULA", what="matrix_block transposes the selection")
 V("c05-no-overlap-guard", "C05", "fire", ND, "        if len(set(Y) & set(X)) > 0:\n            raise ValueError(\"X and Y are not disjoint.\")\n", "", rule="GUARD.conditional.overlap", what="overlap guard dropped")
@@ -186,3 +186,40 @@ V("c06-mse-other-target", "C06", "fire", ND, "        (coefs_xs, _) = self.regre
 V("c06-silent-inv", "C06", "silent", ND, "coefs[Xs] = np.linalg.solve(cov_xs, cov_y_xs)", "coefs[Xs] = np.linalg.inv(cov_xs) @ cov_y_xs", what="inv @ for solve")
 V("c06-silent-matrix-block", "C06", "silent", ND, "cov_xs = self.covariance[:, Xs][Xs, :]  #", "cov_xs = utils.matrix_block(self.covariance, Xs, Xs)  #", what="helper for chained indexing", )
 V("c06-silent-dot", "C06", "silent", ND, "intercept = self.mean[y] - coefs @ self.mean", "intercept = self.mean[y] - self.mean.dot(coefs)", what="dot for @, commuted 1-D product")
+
+# ------------------------------------------------------------------------------- C01
+DO_BLOCK = """        if do_interventions:
+            do_interventions = _parse_interventions(do_interventions)
+            targets = do_interventions[:, 0].astype(int)
+            means[targets] = do_interventions[:, 1]
+            variances[targets] = do_interventions[:, 2]
+            W[:, targets] = 0
+"""
+NOISE_BLOCK = """        if noise_interventions:
+            noise_interventions = _parse_interventions(noise_interventions)
+            targets = noise_interventions[:, 0].astype(int)
+            means[targets] = noise_interventions[:, 1]
+            variances[targets] = noise_interventions[:, 2]
+"""
+V("c01-f2-revert", "C01", "fire", LG, "        variances = self.variances.astype(float)\n        means = self.means.astype(float)\n", "        variances = self.variances.copy()\n        means = self.means.copy()\n", rule="DTYPE", what="revert fix F2")
+V("c01-do-row-cut", "C01", "fire", LG, "            W[:, targets] = 0\n", "            W[targets, :] = 0\n", rule="CASES", what="do cuts outgoing instead of incoming edges")
+V("c01-do-keeps-edges", "C01", "fire", LG, "            W[:, targets] = 0\n", "", rule="CASES", what="do keeps incoming edges")
+V("c01-noise-adds", "C01", "fire", LG, "            means[targets] = noise_interventions[:, 1]\n", "            means[targets] += noise_interventions[:, 1]\n", rule="CASES", what="noise intervention adds its mean")
+V("c01-shift-replaces-var", "C01", "fire", LG, "            variances[targets] += shift_interventions[:, 2]\n", "            variances[targets] = shift_interventions[:, 2]\n", rule="CASES", what="shift replaces the variance")
+V("c01-precedence-swapped", "C01", "fire", LG, NOISE_BLOCK + "\n        # Perform do interventions. Note that they take preference\n        # i.e. \"override\" shift and noise interventions\n" + DO_BLOCK,
+  DO_BLOCK + "\n" + NOISE_BLOCK, rule="CASES", what="noise applied after do: noise overrides do on a shared target")
+V("c01-columns-swapped", "C01", "fire", LG, "            means[targets] = do_interventions[:, 1]\n            variances[targets] = do_interventions[:, 2]\n", "            means[targets] = do_interventions[:, 2]\n            variances[targets] = do_interventions[:, 1]\n", rule="CASES", what="mean/variance columns swapped for do")
+V("c01-cross-targets", "C01", "fire", LG, "            targets = noise_interventions[:, 0].astype(int)\n", "            targets = noise_interventions[:, 0].astype(int) if not shift_interventions is None else targets\n", rule=None, what="unrecognised target expression", accept_inconclusive=True)
+V("c01-producer-swapped", "C01", "fire", LG, "interventions.append([target, params[0], params[1]])", "interventions.append([target, params[1], params[0]])", rule="LAYOUT.producer", what="producer swaps mean and variance")
+V("c01-scalar-var-one", "C01", "fire", LG, "interventions.append([target, params, 0])", "interventions.append([target, params, 1])", rule="LAYOUT.producer", what="scalar parameter gets variance 1")
+V("c01-formula-no-transpose", "C01", "fire", LG, "A = np.linalg.inv(np.eye(self.p) - W.T)", "A = np.linalg.inv(np.eye(self.p) - W)", rule="FORMULA", what="W instead of W^T")
+V("c01-cov-sqrt", "C01", "fire", LG, "covariance = A @ np.diag(variances) @ A.T", "covariance = A @ np.diag(variances ** 0.5) @ A.T", rule="FORMULA.covariance", what="standard deviations in the covariance")
+V("c01-cov-no-transpose", "C01", "fire", LG, "covariance = A @ np.diag(variances) @ A.T", "covariance = A @ np.diag(variances) @ A", rule="FORMULA.covariance", what="A instead of A^T")
+V("c01-mean-uses-model-means", "C01", "fire", LG, "        mean = A @ means\n", "        mean = A @ self.means\n", rule=None, what="population mean ignores the interventions", accept_inconclusive=True)
+V("c01-sampling-matrix-wrong", "C01", "fire", UT, "    return np.linalg.inv(np.eye(p) - W.T)", "    return np.linalg.inv(np.eye(p) - W)", rule="FORMULA.sampling_matrix", what="sibling helper disagrees")
+V("c01-none-unguarded", "C01", "fire", LG, "        if shift_interventions:\n            shift_interventions = _parse_interventions(shift_interventions)", "        if shift_interventions != {}:\n            shift_interventions = _parse_interventions(shift_interventions)", rule=None, what="None reaches .items()", accept_inconclusive=True)
+V("c01-range-swapped", "C01", "fire", LG, "self.means = rng.uniform(means[0], means[1], size=self.p)", "self.means = rng.uniform(means[1], means[0], size=self.p)", rule="RANGE", what="low/high swapped")
+V("c01-range-variances-from-means", "C01", "fire", LG, "                variances[0], variances[1], size=self.p)", "                means[0], variances[1], size=self.p)", rule="RANGE", what="variance range uses the mean's lower bound")
+V("c01-silent-sampling-matrix", "C01", "silent", LG, "A = np.linalg.inv(np.eye(self.p) - W.T)", "A = utils.sampling_matrix(W)", what="sibling helper used")
+V("c01-silent-float-array", "C01", "silent", LG, "        means = self.means.astype(float)\n", "        means = np.array(self.means, dtype=float)\n", what="np.array(dtype=float)")
+V("c01-silent-not-none-guard", "C01", "silent", LG, "        if do_interventions:\n", "        if do_interventions is not None and len(do_interventions) > 0:\n", what="explicit None / empty guard")
